@@ -26,7 +26,7 @@ def generate(tier, seed):
         for opt in ("", "--protonate-all"):
             cases.append({"kind": "file", "file": name, "opt": opt, "seed": "%d:%s:%s" % (seed, name, opt),
                           "cost": 200 if name in sources.PROTEINS else 5})
-    n = 350 if tier == "quick" else 4000
+    n = 350 if tier == "quick" else 20000
     for k in range(n):
         cases.append({"kind": "built", "opt": "--protonate-all" if k % 3 == 0 else "", "seed": "%d:b:%d" % (seed, k), "cost": 30})
     return cases
